@@ -15,6 +15,11 @@
             contain a lowered jump test the flag on every path
  UNDEF      Undefined placeholders only for names that are not defined, global
             or nonlocal, and placed before the operator call
+ CLOSURE    free names of closures that reach a statement stay live
+ HOIST-LAZY statement-level hoisting must respect laziness
+ DUP-EVAL   a user expression reaches the generated code at most once
+ NEW-BINDING templates assign only to fresh symbols or to the positions the user
+            statement binds itself
 """
 import ast
 import textwrap
@@ -25,6 +30,7 @@ from sa import effects
 from sa import facts
 from sa import pat
 from sa import pycfg
+from sa import rules_dup
 from sa import rules_order
 from sa import setalg
 from sa import tpl
@@ -199,6 +205,10 @@ def check(model, rep, tier):
   rep.rule('UNDEF', 'Undefined placeholders', floor=4)
   rep.rule('CLOSURE', 'free names of reaching closures stay live (state wiring)', floor=2)
   rep.rule('HOIST-LAZY', 'statement-level hoisting respects laziness', floor=1)
+  rep.rule('NEW-BINDING', 'templates assign only to fresh symbols or to what the '
+           'user statement itself binds', floor=15)
+  rep.rule('DUP-EVAL', 'a user expression is embedded in generated code at most '
+           'once (template multiplicity; linear use in handlers)', floor=12)
 
   # ---------------------------------------------------------------- EFFECT
   specf = {n.name: n for n in ast.parse(SPEC).body}
@@ -259,6 +269,23 @@ def check(model, rep, tier):
     rep.touch(rel)
     cls = model.cls(rel, cname)
     T = trav.HandlerTraversal(model, cls)
+    # helpers that open a frame of converter state around the block visit: the
+    # bookkeeping of the pass (does this block return / continue / pop?) is per
+    # block, so every block has to go through one of them
+    frame_helpers = []
+    for hn, hfi in cls.methods.items():
+      if hn.startswith('visit_'):
+        continue
+      calls = [c for c in core.walk_no_nested(hfi.node) if isinstance(c, ast.Call)]
+      vb = [c for c in calls if core.dotted(c.func) == 'self.visit_block']
+      opens = any(isinstance(c.func, ast.Attribute) and c.func.attr == 'enter' and
+                  core.norm(c.func.value).startswith('self.state[') for c in calls) or \
+          any(isinstance(w, ast.With) and any(core.norm(i.context_expr).startswith(
+              'self.state[') for i in w.items) for w in ast.walk(hfi.node)) or \
+          any(k.arg == 'before_visit' and core.norm(k.value).startswith('self.state[')
+              and core.norm(k.value).endswith('.enter') for c in vb for k in c.keywords)
+      if vb and opens:
+        frame_helpers.append('via:' + hn)
     for P in BLOCK_KINDS:
       fields = [f for f, t, q in asdl.fields(P) if t == 'stmt' and q == '*']
       h = cls.find('visit_' + P)
@@ -283,6 +310,9 @@ def check(model, rep, tier):
           hows = ex.paths.get(f, set()) | (ex.paths.get(trav.ALL, set()))
           if not any(x.startswith('visit_block+') for x in hows):
             bad.append((ex.line, sorted(hows)))
+          elif frame_helpers and not any(x in hows for x in frame_helpers):
+            bad.append((ex.line, 'block visited without a fresh state frame (%s)'
+                        % ', '.join(x[4:] for x in frame_helpers)))
         rep.check(not bad, 'BLOCKS', site,
                   'visit_%s does not pass %s.%s through the block visitor with '
                   'the pass\'s post-processing callback on every path' % (P, P, f),
@@ -572,6 +602,41 @@ def check(model, rep, tier):
                                 test_in_stmt_ctx},
             witness='while l.pop(): n += 1  (converted: infinite loop); '
             'c and l.pop()')
+
+  # ---------------------------------------------------------------- DUP-EVAL
+  csites = [s for s in sites if s.fi.module.rel.startswith(CONV) or
+            s.fi.module.rel == 'malt/core/converter.py']
+  na = rules_dup.multiplicity(model, rep, csites)
+  cfuncs = [fi for m in model.modules.values() if m.rel.startswith(CONV)
+            for fi in m.all_functions()]
+  nb = rules_dup.linear_use(model, rep, csites, cfuncs)
+  nn = rules_dup.new_binding(model, rep, csites, {
+      CONV + 'control_flow.py:ControlFlowTransformer._create_undefined_assigns:store(var)':
+      'the symbols come from _get_block_vars; rule UNDEF undefined-bound proves '
+      'they are modified by the block and neither global nor nonlocal'})
+  rep.unit('new-binding store placeholders', nn)
+  rep.unit('dup-eval placeholders', na)
+  rep.unit('dup-eval handlers', nb)
+
+  # ---------------------------------------------------------------- dependencies
+  rep.depends('C05', ['CFG-STMT', 'CFG-PAIR', 'CFG-TRY', 'CFG-SCOPE', 'CFG-KEYED', 'CFG-JUMP', 'CFG-MIRROR', 'CFG-LEAVES'],
+              'the dataflow analyses that decide loop / branch state run on this graph')
+  rep.depends('C06', ['RD-JOIN', 'RD-STATE', 'RD-TRANSFER', 'RD-FLAG', 'RD-DRIVER', 'RD-ENTRY', 'RD-CONSUMER'],
+              'Undefined placeholders are emitted for symbols the reaching-definitions analysis reports as possibly undefined')
+  rep.depends('C07', ['LV-JOIN', 'LV-TRANSFER', 'LV-CLOSURE', 'LV-FLAG', 'LV-DRIVER', 'LV-BLOCK', 'LV-HEADER'],
+              'a variable that liveness reports dead is dropped from the state of a functionalised block')
+  rep.depends('C08', ['BIND-EXH', 'CTX-TABLE', 'PARAMS', 'FINALIZE', 'ACT-TRAV', 'ACT-ORDER'],
+              'every later analysis and every state tuple is computed from these read / modified / bound sets')
+  rep.depends('C03', ['SEQ', 'GETSET', 'NOUTS', 'CB-ARITY', 'OP-ROLE'],
+              'the default operators reach the variables of the function only through the emitted callbacks')
+  rep.depends('C09', ['IFACE-ERASE', 'IFACE-INST', 'IFACE-BIND', 'IFACE-SELF', 'IFACE-ARGS'],
+              'the converted function must accept the same calls in the same environment')
+  rep.depends('C11', ['HYG-RESERVED', 'HYG-NAMER', 'HYG-BIND', 'HYG-BINDER', 'HYG-FREE', 'HYG-SUPPORT'],
+              'a generated name that captures or shadows a user name changes which object the user name denotes')
+  rep.depends('C13', ['CALL-ONCE', 'CALL-FAITHFUL', 'CALL-NODOUBLE', 'CALL-PARTIAL', 'CALL-OPTS'],
+              'every call of the user goes through the call wrapper, at any depth')
+  rep.depends('C14', ['BI-TABLE', 'BI-SIG', 'BI-FORWARD', 'BI-FRAME'],
+              'calls of builtins are served by the substitutes')
 
 
 def _namedtuple_fields(cls):
